@@ -41,10 +41,13 @@ def change_score(rng, p, allow_user=True):
 
 
 def pelt(rng, p, dense_events):
-    k = _choice(rng, ["none", "L2Cost", "GaussianVarCost", "L1Cost", "ClosureTableCost", "L2fixed", "LazySSECost"])
+    k = _choice(rng, ["none", "L2Cost", "GaussianVarCost", "L1Cost", "ClosureTableCost", "L2fixed", "LazySSECost",
+                      "GaussianCovCost"])
     msl = int(rng.integers(1, 6))
     if k == "none":
         cost = None
+    elif k == "GaussianCovCost":  # inherently multivariate built-in cost: minimum size p + 1
+        cost, msl = S("GaussianCovCost", param=None), max(msl, p + 1)
     elif k == "L2Cost":
         cost = S("L2Cost", param=None)
     elif k == "GaussianVarCost":
@@ -134,7 +137,8 @@ def mvcapa(rng, p, dense_events):
 
 
 def cbs(rng, p, dense_events):
-    k = _choice(rng, ["none", "L2Cost", "GaussianVarCost", "Hash", "L2local", "HashMV", "LazyLocal"])
+    k = _choice(rng, ["none", "L2Cost", "GaussianVarCost", "Hash", "L2local", "HashMV", "LazyLocal", "GaussianCovCost",
+                      "L2fixed", "GVfixed"])
     msl = int(rng.integers(1, 5))
     if k == "HashMV":
         k = "Hash"
@@ -143,6 +147,12 @@ def cbs(rng, p, dense_events):
         mv = False
     if k == "none":
         sc = None
+    elif k == "GaussianCovCost":
+        sc, msl = S("GaussianCovCost", param=None), max(msl, p + 1)
+    elif k == "L2fixed":  # fixed-parameter costs are additive: every local anomaly score is zero up to rounding
+        sc = S("L2Cost", param=float(_choice(rng, [0.0, 0.5, -1.0])))
+    elif k == "GVfixed":
+        sc, msl = S("GaussianVarCost", param={"tuple": [0.0, float(_choice(rng, [1.0, 2.5]))]}), max(msl, 2)
     elif k == "L2Cost":
         sc = S("L2Cost", param=None)
     elif k == "GaussianVarCost":
